@@ -184,6 +184,30 @@ def laneH2Meta : List String → String
     | _, _ => "bad-op"
   | _ => "bad-op"
 
+/-- `c07h2accept <MaxHeaderListSize> <frags>` → `response` iff the header list is returned complete
+(a truncated list is refused by `processHeaders`, every error fails the call) -/
+def laneH2Accept : List String → String
+  | [m, frs] =>
+    match m.toNat?, (frs.splitOn ";").mapM parseFragTok with
+    | some M, some fs =>
+      match Req.H2.Meta.readMeta M fs false with
+      | .ok _ false => "response"
+      | _ => "error"
+    | _, _ => "bad-op"
+  | _ => "bad-op"
+
+/-- `c07h3accept <maxHeaderBytes> <hex stream>` → `block` iff the header block is read (what follows
+is QPACK / field validation), else `error` -/
+def laneH3Accept : List String → String
+  | [m, hex] =>
+    match m.toNat?, decodeHex hex with
+    | some M, some s =>
+      match (Req.C07.H3Budget.readHead M s).out with
+      | .block _ _ => "block"
+      | _ => "error"
+    | _, _ => "bad-op"
+  | _ => "bad-op"
+
 /-- `c07h3head <maxHeaderBytes> <hex stream>` → what `ReadResponse` does at the frame level -/
 def laneH3Head : List String → String
   | [m, hex] =>
@@ -222,6 +246,8 @@ def lanes : List (String × (List String → String)) := [
   ("c07pcread", lanePcRead),
   ("c07h2meta", laneH2Meta),
   ("c07h3head", laneH3Head),
+  ("c07h2accept", laneH2Accept),
+  ("c07h3accept", laneH3Accept),
   ("c07h3fields", laneH3Fields)
 ]
 
